@@ -18,6 +18,20 @@ import symx  # noqa: E402
 from symx import core  # noqa: E402
 
 EXIT_OK, EXIT_VIOLATION, EXIT_HARNESS = 0, 1, 2
+
+
+class ExpectedRefusal(Exception):
+    """A documented refusal of the input (ValueError with a known message): the path ends, nothing to assert."""
+
+
+def laplace_load(M, a, b):
+    """Laplace_Load(a, b); the documented refusal of an all-zero denominator ends the path."""
+    try:
+        return M.Laplace_Load(a=a, b=b)
+    except ValueError as e:
+        if 'denominator' in str(e):
+            raise ExpectedRefusal(str(e))
+        raise
 VERBOSE = bool(os.environ.get('VERIF_VERBOSE'))
 
 
